@@ -217,7 +217,7 @@ func init() {
 	subcmds["linttables"] = func(args []string) int {
 		type rg [2]int
 		ranges := func(pred func(rune) bool) []rg {
-			var out []rg
+			out := []rg{}
 			start := -1
 			for r := 0; r <= unicode.MaxRune+1; r++ {
 				in := r <= unicode.MaxRune && pred(rune(r))
@@ -249,9 +249,15 @@ func init() {
 			fmt.Fprintln(os.Stderr, err)
 			return 1
 		}
+		// the characters that start / continue the tag of a dollar-quoted string, as the rules' scanner reads them:
+		// observed on linter.LexMap itself ("$r$ $r$" / "$ar$ $ar$" is one literal exactly when r starts / continues a tag)
+		lit := func(s string) bool { return linter.LexMap(s)[0] == linter.LexLiteral }
+		tagStart := func(r rune) bool { return r != '$' && lit("$"+string(r)+"$ $"+string(r)+"$") }
+		tagPart := func(r rune) bool { return r != '$' && lit("$a"+string(r)+"$ $a"+string(r)+"$") }
 		emitJSON(map[string]interface{}{
 			"letter": ranges(unicode.IsLetter), "digit": ranges(unicode.IsDigit), "space": ranges(unicode.IsSpace),
 			"upper_ascii": upper, "lower_of": lowerOf, "keywords": kws,
+			"idstart": ranges(tagStart), "idpart": ranges(tagPart),
 		})
 		return 0
 	}
